@@ -16,6 +16,7 @@ def run(ctx):
                     max_loops=3 if ctx.quick else 5, routings_per_graph=2)
     ss += S.generate(ctx, 4 if ctx.quick else 25, 2, max_e=10, max_loops=4, routings_per_graph=2,
                      names=["banana4", "ladder3x", "mercedes", "sunrise"])
+    ss += S.generate(ctx, 2 if ctx.quick else 10, 2, max_e=6, max_loops=5, routings_per_graph=2, names=["banana6"])
     # zero shifts on some edges: u_l = 0 for some loops but not others
     for s in list(ss[:: 5]):
         r = dict(s["routing"]); sh = [list(v) for v in r["shifts"]]
